@@ -19,7 +19,13 @@ def decision_table(fn):
     rows, implied = [], set()
     for tests, v in entries:
         lits = [x for x in split_tests(tests) if x not in implied]
-        rows.append((sorted(set(lits)), norm(v)))
+        val = norm(v)
+        # a result that merely restates a condition of its own row (or of an earlier refusal) is that truth value
+        if val in lits or val in implied:
+            val = "True"
+        elif len(literals(v, False)) == 1 and (literals(v, False)[0] in lits or literals(v, False)[0] in implied):
+            val = "False"
+        rows.append((sorted(set(lits)), val))
         if lits:       # from here on this row did not apply: (given what is already implied) the negation of its own conditions holds
             parsed = [ast.parse(x, mode="eval").body for x in sorted(set(lits))]
             implied |= set(literals(parsed[0] if len(parsed) == 1 else ast.BoolOp(op=ast.And(), values=parsed), False))
